@@ -216,15 +216,11 @@ def run_shards(exe, outdir0, nshards, cases, seed, thorough=False, env_fn=None, 
                 args += ["--budget", str(budget)]
             if start_from is not None:
                 args += ["--from", str(start_from)]
-            try:
-                p = subprocess.run(args, stdout=subprocess.PIPE, stderr=subprocess.PIPE, text=True,
-                                   errors="replace", env=env, timeout=timeout, cwd=outdir,
-                                   preexec_fn=pre if stack_mb else None)
-                rc, err, pid_out = p.returncode, p.stderr, p.stdout
-            except subprocess.TimeoutExpired as e:
+            rc, err, stalled = run_monitored(args, env, outdir, timeout, pre if stack_mb else None)
+            if rc == -999:
                 sr.timed_out = True
                 sr.rc = -999
-                sr.stderr = (e.stderr or b"").decode(errors="replace") if isinstance(e.stderr, bytes) else (e.stderr or "")
+                sr.stderr = err
                 return
             sr.rc = rc
             sr.stderr += err[-6000:]
@@ -245,7 +241,11 @@ def run_shards(exe, outdir0, nshards, cases, seed, thorough=False, env_fn=None, 
             where = "%s:%s:%s" % (label, m.group(1) if m else "?", m.group(2) if m else "?")
             key = None
             text = ""
-            if "BUDGET" in prog or rc == 3:
+            if stalled:
+                key = "%s:stall:%s" % (prop, label)
+                text = ("no CPU time was consumed for %d s while case %s was running (all threads blocked: deadlock or "
+                        "lost wake-up)" % (STALL_SECONDS, where))
+            elif "BUDGET" in prog or rc == 3:
                 key = "%s:hang:%s" % (prop, label)
                 text = "CPU-time budget exhausted in case %s" % where
             else:
@@ -318,6 +318,76 @@ def run_shards(exe, outdir0, nshards, cases, seed, thorough=False, env_fn=None, 
         for f in futs:
             f.result()
     return results
+
+
+STALL_SECONDS = 45
+
+
+def _group_cpu(pgid):
+    """user+system CPU seconds of every process in the process group (the harness and what it forked)"""
+    total = 0
+    tick = os.sysconf("SC_CLK_TCK")
+    for d in os.listdir("/proc"):
+        if not d.isdigit():
+            continue
+        try:
+            f = open("/proc/%s/stat" % d).read()
+            rest = f[f.rindex(")") + 2:].split()
+            if int(rest[2]) == pgid:             # field 5 = pgrp
+                total += int(rest[11]) + int(rest[12])
+        except (OSError, ValueError, IndexError):
+            continue
+    return total / float(tick)
+
+
+def run_monitored(args, env, cwd, timeout, preexec):
+    """Run one shard. Returns (rc, stderr, stalled). rc -999 = wall-clock watchdog (inconclusive).
+    A process group that consumes no CPU at all for STALL_SECONDS is blocked for good (this does not depend on
+    machine load: a runnable process always accumulates some CPU time) and is killed and reported as stalled."""
+    import signal as _sig
+    errf = open(os.path.join(cwd, "stderr.%d.txt" % os.getpid()), "a+", errors="replace")
+
+    def pre():
+        os.setsid()
+        if preexec:
+            preexec()
+    p = subprocess.Popen(args, stdout=subprocess.DEVNULL, stderr=errf, env=env, cwd=cwd, preexec_fn=pre)
+    t0 = time.time()
+    last_cpu, last_change = -1.0, time.time()
+    stalled = False
+    while True:
+        try:
+            p.wait(timeout=1.0)
+            break
+        except subprocess.TimeoutExpired:
+            pass
+        now = time.time()
+        cpu = _group_cpu(p.pid)
+        if cpu > last_cpu + 0.01:
+            last_cpu, last_change = cpu, now
+        elif now - last_change > STALL_SECONDS:
+            stalled = True
+        if stalled or now - t0 > timeout:
+            try:
+                os.killpg(p.pid, _sig.SIGKILL)
+            except OSError:
+                pass
+            p.wait()
+            break
+    try:
+        os.killpg(p.pid, _sig.SIGKILL)         # stray children of a harness that died
+    except OSError:
+        pass
+    errf.seek(0)
+    err = errf.read()[-20000:]
+    errf.close()
+    try:
+        os.remove(errf.name)
+    except OSError:
+        pass
+    if not stalled and p.returncode is not None and time.time() - t0 > timeout and p.returncode < 0:
+        return -999, err, False
+    return p.returncode, err, stalled
 
 
 def _first_report(body):
